@@ -53,6 +53,18 @@ Proof.
   cbn. constructor; [exact E|apply IH; exact R].
 Qed.
 
+Lemma rt_nodes_cancel : forall p q,
+  Permutation (rt_nodes q) (fst (sq_cancel p q) ++ rt_nodes (snd (sq_cancel p q))).
+Proof.
+  intros p q. unfold sq_cancel. generalize 0 as carry. induction q as [|[t n] rest IH]; intros carry.
+  - apply Permutation_refl.
+  - cbn [sq_cancel_go]. destruct (p n).
+    + specialize (IH (carry + t)). destruct (sq_cancel_go p (carry + t) rest) as [rm q'].
+      cbn [fst snd rt_nodes map app] in *. apply perm_skip. exact IH.
+    + specialize (IH 0). destruct (sq_cancel_go p 0 rest) as [rm q'].
+      cbn [fst snd rt_nodes map app] in *. apply Permutation_cons_app. exact IH.
+Qed.
+
 (* ------------------------------------------------------------------ projection on one message *)
 Inductive rt_tag := PTx (b : list Z) | PNack (r c mx : Z) | PAcked.
 
@@ -200,6 +212,21 @@ Proof.
       intros [X|X]; [apply Ne; congruence|apply Hu; exact X].
 Qed.
 
+(* several nodes leave the queue, each with the ghost mark of an implicit acknowledgement *)
+Lemma rt_rel_drop_acked : forall t rm tr k ns,
+  rt_rel tr k (rm ++ ns) ->
+  rt_rel (tr ++ map (fun n => RoAcked t (qn_uid n)) rm) k ns.
+Proof.
+  induction rm as [|n rm IH]; intros tr k ns R; cbn [map app] in *.
+  - rewrite app_nil_r. exact R.
+  - replace (tr ++ RoAcked t (qn_uid n) :: map (fun n0 => RoAcked t (qn_uid n0)) rm)
+      with ((tr ++ [RoAcked t (qn_uid n)]) ++ map (fun n0 => RoAcked t (qn_uid n0)) rm)
+      by (rewrite <- app_assoc; reflexivity).
+    apply IH. eapply rt_rel_drop with (n := n) (tag := PAcked); [intros _; exact I| | |exact R].
+    + cbn. rewrite Z.eqb_refl. reflexivity.
+    + intros u Hu. cbn. assert (X : (qn_uid n =? u) = false) by lia. rewrite X. reflexivity.
+Qed.
+
 (* ------------------------------------------------------------------ the machine keeps it *)
 Lemma rt_enqueue_nodes : forall st n d,
   Permutation (rt_nodes (rs_q (rt_enqueue st n d))) (n :: rt_nodes (rs_q st)) /\
@@ -263,7 +290,7 @@ Lemma rt_step_rel : forall st ev tr,
   let (st', o) := rt_step st ev in
   rt_rel (tr ++ o) (rs_uid st') (rt_nodes (rs_q st')).
 Proof.
-  intros st ev tr Hev R. destruct ev as [dt|s m b cfg r| |s m|s m|]; cbn [rt_step].
+  intros st ev tr Hev R. destruct ev as [dt|s m b cfg r| |s m|s m|s m tok|]; cbn [rt_step].
   - cbn. rewrite app_nil_r. exact R.
   - unfold rt_send. set (T := fp_calc_timeout _ _ _ _ _).
     set (n := sq_mk_node _ _ _ _ _ _ _). set (st1 := rt_mk_state _ _ _ _).
@@ -305,6 +332,14 @@ Proof.
       pose proof (rt_fire_rel (rt_budget (rs_q st)) st _ R1) as H.
       destruct (rt_fire (rt_budget (rs_q st)) st) as [st1 o]. destruct H as [H _].
       rewrite <- app_assoc in H. exact H.
+  - unfold rt_non, rt_fire_all.
+    pose proof (rt_nodes_cancel (rt_tok_match s tok) (rs_q st)) as P.
+    destruct (sq_cancel (rt_tok_match s tok) (rs_q st)) as [rm q']. cbn [fst snd] in P.
+    assert (R1 : rt_rel (tr ++ map (fun n => RoAcked (rs_now st) (qn_uid n)) rm) (rs_uid st) (rt_nodes q')).
+    { apply rt_rel_drop_acked. eapply rt_rel_perm; [exact P|exact R]. }
+    pose proof (rt_fire_rel (rt_budget (rs_q (rt_set_q st q'))) (rt_set_q st q') _ R1) as H.
+    destruct (rt_fire _ (rt_set_q st q')) as [st1 o]. destruct H as [H _].
+    rewrite <- app_assoc in H. exact H.
   - apply rt_rel_neutral; [intros u; reflexivity|exact R].
 Qed.
 
